@@ -40,6 +40,8 @@ class C14(Prop):
         s["cfg"]["tol"] = float("%.2g" % (10 ** rng.uniform(-6, -2)))
         s["cfg"]["eig"] = float("%.2g" % (10 ** rng.uniform(-2, -1))) if rng.random() < 0.85 else \
             float("%.2g" % (10 ** rng.uniform(-5, -2)))
+        if mode == "tagged" and rng.random() < 0.2:
+            s["cfg"]["tol"] = rng.choice([0.0, 0])       # a legal corner value: no loss allowed at all
         s["cfg"]["mode"] = rng.choice(["dual", "primal"])
         s["peer"]["solver"] = "CLARABEL"
         s["peer"]["force_solver"] = True
